@@ -65,9 +65,12 @@ def main():
         fl = report.floors()
         for r in results:
             for name, n in r.counts.items():
-                key = "%s.%s" % (r.rule, name)
+                key = "%s:%s.%s" % (prop, r.rule, name)
                 if key in fl and n < fl[key]:
                     raise CheckError("count below floor: %s = %d < %d" % (key, n, fl[key]))
+            key = "%s:%s.#obligations" % (prop, r.rule)
+            if key in fl and r.obligations < fl[key]:
+                raise CheckError("obligations below floor: %s = %d < %d" % (key, r.obligations, fl[key]))
     except CheckError as e:
         print("ERROR property=%s %s" % (prop, e))
         return 2
@@ -123,6 +126,9 @@ def main():
             print("  ... and %d more (see %s)" % (len(viols) - 25, replay))
         print("VIOLATION property=%s replay=%s" % (prop, replay))
         return 1
+    stale = os.path.join(VERIF, "evidence", "%s.replay.json" % prop)
+    if not args.repo and not args.no_evidence and not args.replay and os.path.exists(stale):
+        os.remove(stale)  # a replay file describes violations of the last failing run only
     print("OK property=%s rules=%d obligations=%d known_findings=%d wall=%.1fs" % (
         prop, len(results), sum(r.obligations for r in results), len(seen_kf), wall))
     return 0
